@@ -83,7 +83,7 @@ def pick(f):
 def keys: keys_unsorted | sort;
 
 def flatten: [recurse(arrays[]) | select(isarray | not)];
-def flatten($d): if $d > 0 then map(if isarray then flatten($d-1) else [.] end) | add end;
+def flatten($d): def rec($d): if isarray and $d >= 0 then .[] | rec($d-1) end; [rec($d)];
 
 # Regular expressions
 def capture_of_match: map(select(.name) | { (.name): .string} ) | add + {};
